@@ -26,6 +26,8 @@ def family(sig):
 def gen(rng, tier):
     comb = rng.choice(["zip", "zip", "sequence", "traverse"])
     n = rng.choice([0, 1, 2, 2, 3, 3, 4, 6])
+    if rng.random() < 0.03:
+        n = rng.choice([19, 20, 21, 25])     # f_zip switches from named tuples to plain tuples at 20
     big = tier == "thorough" and rng.random() < 0.0005
     if big:
         n = 2000
